@@ -461,6 +461,23 @@ impl<'p> Interp<'p> {
     }
 }
 
+/// Does the program need more than `budget` evaluation steps in one of its first `n` ticks?
+/// (Generated programs with exponential call trees through nested higher-order functions.)
+pub fn is_heavy(prog: &Program, n: usize, budget: u64) -> bool {
+    let Ok(mut it) = Interp::new(prog) else { return false };
+    it.max_steps = budget;
+    let ich: usize = prog.dsp.params.iter().map(|p| p.ty.words()).sum();
+    let inbuf = vec![0.5; ich];
+    for _ in 0..n {
+        match it.tick(&inbuf) {
+            Err(RefError::Steps) => return true,
+            Err(_) => return false,
+            Ok(_) => {}
+        }
+    }
+    false
+}
+
 /// Run `n` samples; returns flattened [sample][channel] outputs and the flags tripped.
 pub fn run(prog: &Program, n: usize, input: &dyn Fn(usize, usize) -> f64) -> Result<(Vec<f64>, BTreeSet<&'static str>), RefError> {
     let mut it = Interp::new(prog)?;
